@@ -178,6 +178,10 @@ def unsplit_netloc(username, password, hostname, port):
     else:
         auth = None
 
+    # NOTE: an ipv6 literal loses its brackets when parsed
+    if ":" in hostname and not hostname.startswith("["):
+        hostname = "[" + hostname + "]"
+
     if auth:
         hostname = auth + "@" + hostname
     if port:
